@@ -22,11 +22,12 @@ inline LifeRegistry &life() { static LifeRegistry r; return r; }
 // Tracking allocator: exact-size blocks from malloc (ASan red zones on both sides).
 struct AllocRegistry {
 	std::map<void *, size_t> blocks;
+	std::map<void *, int> owner;     // allocator instance (TrackAlloc::id) a block came from; 0 = anonymous
 	uint64_t allocs = 0, frees = 0;
 	size_t fail_after = (size_t)-1;
 	void clear() {
 		for(auto &b : blocks) ::free(b.first);
-		blocks.clear(); allocs = frees = 0;
+		blocks.clear(); owner.clear(); allocs = frees = 0;
 	}
 	size_t outstanding() const { return blocks.size(); }
 	size_t size_of(void *p) const { auto it = blocks.find(p); return it == blocks.end() ? (size_t)-1 : it->second; }
@@ -34,10 +35,14 @@ struct AllocRegistry {
 inline AllocRegistry &heap() { static AllocRegistry r; return r; }
 
 struct TrackAlloc {
+	int id = 0;      // instances with different non-zero ids are different allocators: a block must go back to the one it came from
+	TrackAlloc() = default;
+	explicit TrackAlloc(int id_) : id(id_) {}
 	void *allocate(size_t n) {
 		void *p = ::malloc(n ? n : 1);
 		memset(p, 0xA5, n);   // deterministic junk
 		heap().blocks[p] = n;
+		if(id) heap().owner[p] = id;
 		heap().allocs++;
 		return p;
 	}
@@ -45,6 +50,10 @@ struct TrackAlloc {
 		auto &r = heap();
 		auto it = r.blocks.find(p);
 		if(it == r.blocks.end()) { note("C16", std::string("alloc:") + how + "-of-unknown-block", std::string(how) + " of a pointer that is not a live block (double free or foreign pointer)"); return; }
+		if(auto ow = r.owner.find(p); ow != r.owner.end()) {
+			if(id && ow->second != id) note("C16", "alloc:returned-to-another-allocator", "a block obtained from allocator #" + std::to_string(ow->second) + " was given back to allocator #" + std::to_string(id));
+			r.owner.erase(ow);
+		}
 		// any element still alive inside the block?
 		auto &lv = life().live;
 		auto lo = lv.lower_bound(p);
